@@ -1,7 +1,6 @@
 package sim
 
 import (
-	"math"
 	"math/big"
 	"time"
 )
@@ -67,7 +66,7 @@ func (a *muxAnalysis) oracleC03() {
 			maxPart := time.Duration(0)
 			for i, seg := range pl.Segments {
 				msn := pl.MediaSequence + pl.Skipped + i
-				if r := int(math.Round(seg.Duration.Seconds())); r > pl.TargetDuration {
+				if r := roundEXTINF(seg.Duration); r > pl.TargetDuration {
 					fail("target-duration", "too-small", "segment %d has EXTINF %v (rounds to %d) but EXT-X-TARGETDURATION is %d", msn, seg.Duration, r, pl.TargetDuration)
 					return
 				}
@@ -173,4 +172,10 @@ func (a *muxAnalysis) oracleC03() {
 			}
 		}
 	}
+}
+
+// roundEXTINF rounds a listed duration to the nearest integer of seconds, half way cases up (the convention of the
+// library itself and of the HLS validators).
+func roundEXTINF(d time.Duration) int {
+	return int((d + 500*time.Millisecond) / time.Second)
 }
